@@ -10,6 +10,7 @@ from hypothesis import strategies as st
 from refs import cbmodel as cm
 from refs import coordsys as cs
 from vlib import util
+from vlib import defaults
 from vlib.core import Part
 
 PROPERTY = "C06"
@@ -1357,4 +1358,7 @@ PARTS = [
          quick=(1, 15), thorough=(1, 60)),
     Part("cbcheck_noreorder_rbnorm", oracle_cbcheck, strategy=lambda: cb_cases("noreorder_rbnorm"),
          quick=(1, 15), thorough=(1, 60)),
+    # documented defaults: leaving a keyword out = passing its documented value (vlib/defaults.py)
+    Part("defaults", defaults.make_oracle("C06"), enum=defaults.make_enum(), quick=(1, None), thorough=(1, None),
+         exhaustive=True),
 ]
